@@ -113,6 +113,28 @@ func TestC10(t *testing.T) {
 		{refenc.TTiny, 0}, {refenc.TShort, 0}, {refenc.TInt24, 0}, {refenc.TYear, 0},
 	}
 	rapidCheck(t, func(rt *rapid.T) {
+		switch rapid.IntRange(0, 19).Draw(rt, "part_e2e2") {
+		case 0:
+			// end to end: a table id announced again with other column types must be decoded with the new ones
+			c := drawRebind(rt, 0)
+			rec.Case(true, c, "e2e/re-announced-table-map")
+			journal("C10", "c15rebind", c)
+			if err := checkRebind(c); err != nil {
+				rec.Violation("c15rebind", c, "", err)
+				rt.Fatalf("C10 violation: %v", err)
+			}
+			return
+		case 1:
+			// end to end: histories over this property's types, compared AFTER the stream ended
+			c := drawE2E(rt, c10HistOpt())
+			rec.Case(true, c, "e2e/history")
+			journal("C10", "c01", c)
+			if err := checkC01(c); err != nil {
+				rec.Violation("c01", c, "", err)
+				rt.Fatalf("C10 violation: %v", err)
+			}
+			return
+		}
 		if rapid.IntRange(0, 9).Draw(rt, "part_e2e") == 0 {
 			// end to end: signedness follows what the table mapper says NOW, also after an ALTER TABLE that
 			// brings the table back under a new id with other signedness (shared with C15's scenario)
@@ -162,4 +184,12 @@ func floatClass(typ byte, bits uint64) string {
 	default:
 		return "plain-range"
 	}
+}
+
+func c10HistOpt() gen.HistOpt {
+	o := gen.DefaultHistOpt(limits(), false)
+	o.MaxUnits, o.MaxTables, o.MaxCols = 8, 2, 8
+	o.BigBase = false
+	o.Col = gen.ColumnOpt{Only: []byte{refenc.TTiny, refenc.TShort, refenc.TInt24, refenc.TLong, refenc.TLongLong, refenc.TFloat, refenc.TDouble, refenc.TYear, refenc.TBit, refenc.TString}, NoHeavy: true}
+	return o
 }
